@@ -689,4 +689,286 @@ theorem strictParse_prepared (p : Prepared) (meth url : Str) (hrl : ReqLineOk me
   rw [hparse]
   simp [Prepared.lines, hws, hreq, hmap]
 
+/-! ## automatic headers, caller headers, clean targets -/
+
+theorem encodeAscii_ok {s : Str} {b : Bytes} (h : encodeAscii s = .ok b) : b = s := by
+  unfold encodeAscii at h; split at h <;> simp at h; exact h.symm
+
+theorem encodeLatin1_ok {s : Str} {b : Bytes} (h : encodeLatin1 s = .ok b) : b = s := by
+  unfold encodeLatin1 at h; split at h <;> simp at h; exact h.symm
+
+theorem hcPutheader_name {name : Str} {value : Str ⊕ Bytes} {h : Hdr} (e : hcPutheader name value = .ok h) :
+    h.1 = name := encodeAscii_ok (hcPutheader_legal e).2
+
+theorem hcPutheader_str_value {name v : Str} {h : Hdr} (e : hcPutheader name (.inl v) = .ok h) : h = (name, v) := by
+  have hn := hcPutheader_name e
+  unfold hcPutheader at e
+  split at e
+  · simp at e
+  · split at e
+    · simp at e
+    · split at e
+      · simp at e
+      · rename_i v' hv
+        split at e
+        · simp at e
+        · simp at e
+          have := encodeLatin1_ok hv
+          subst this
+          rw [← e] at hn ⊢
+          simp at hn
+          simp [hn]
+
+/-- the caller's header lines as `putheader` buffers them: those not carrying `SKIP_HEADER` -/
+def callerHdrs (headers : List (Str × Str)) : List Hdr :=
+  headers.filter (fun kv => kv.2 != Gen.skipHeader)
+
+theorem putheader_eq {k v : Str} {l : List Hdr} (e : putheader k v = .ok l) :
+    l = if v != Gen.skipHeader then [(k, v)] else [] := by
+  unfold putheader at e
+  split at e
+  · rename_i hv
+    obtain ⟨a, ha, e⟩ := map_ok e
+    subst e
+    simp [hv, hcPutheader_str_value ha]
+  · rename_i hv
+    split at e
+    · simp at e
+    · simp at e; subst e; simp [hv]
+
+theorem putCallerHeaders_eq {hs : List (Str × Str)} {l : List Hdr} (e : putCallerHeaders hs = .ok l) :
+    l = callerHdrs hs := by
+  induction hs generalizing l with
+  | nil => simp [putCallerHeaders] at e; subst e; rfl
+  | cons kv t ih =>
+    obtain ⟨k, v⟩ := kv
+    simp only [putCallerHeaders] at e
+    split at e
+    · simp at e
+    · rename_i l1 h1
+      split at e
+      · simp at e
+      · rename_i r hr
+        simp at e; subst e
+        rw [putheader_eq h1, ih hr]
+        simp only [callerHdrs, List.filter_cons]
+        split <;> simp
+
+theorem putrequest_hdrs {cfg : Cfg} {meth url : Str} {sh sa : Bool} {r : Bytes × List Hdr}
+    (e : putrequest cfg meth url sh sa = .ok r) :
+    ∃ hostL aeL, r.2 = hostL ++ aeL ∧
+      (if sh then hostL = [] else ∃ v, hostL = [(lit "Host", v)]) ∧
+      (if sa then aeL = [] else aeL = [(lit "Accept-Encoding", lit "identity")]) := by
+  unfold putrequest at e
+  split at e
+  · simp at e
+  · split at e
+    · simp at e
+    · split at e
+      · simp at e
+      · split at e
+        · simp at e
+        · split at e
+          · simp at e
+          · rename_i hostL hhost
+            split at e
+            · simp at e
+            · rename_i aeL hae
+              simp at e; subst e
+              refine ⟨hostL, aeL, rfl, ?_, ?_⟩
+              · cases sh with
+                | true => simp at hhost; simp [hhost]
+                | false =>
+                  simp only [Bool.false_eq_true, if_false] at hhost ⊢
+                  obtain ⟨a, ha, e2⟩ := map_ok hhost
+                  subst e2
+                  unfold hostLine at ha
+                  split at ha
+                  · simp at ha
+                  · have := hcPutheader_name ha
+                    exact ⟨a.2, by rw [← this]⟩
+              · cases sa with
+                | true => simp at hae; simp [hae]
+                | false =>
+                  simp only [Bool.false_eq_true, if_false] at hae ⊢
+                  obtain ⟨a, ha, e2⟩ := map_ok hae
+                  subst e2
+                  rw [hcPutheader_str_value ha]
+
+theorem putheader_contentLength (n : Nat) {l : List Hdr}
+    (hp : putheader (lit "Content-Length") (toDec n) = .ok l) : l = [(lit "Content-Length", toDec n)] := by
+  rw [putheader_eq hp]
+  split
+  · rfl
+  · rename_i hv
+    exfalso
+    unfold putheader at hp
+    simp only [hv] at hp
+    have hc : ¬ (lower (lit "Content-Length") ∈ Gen.skippableHeaders) := by decide
+    simp [hc] at hp
+
+theorem framing_lines {keys : List Str} {ch : Bool} {chunks : Option (List Chunk)} {cl : Option Nat} {fr : Framing}
+    (h : framing keys ch chunks cl = .ok fr) :
+    fr.lines = [] ∨
+    (fr.lines = [(lit "Transfer-Encoding", lit "chunked")] ∧ keys.contains (lit "transfer-encoding") = false) ∨
+    (∃ n, fr.lines = [(lit "Content-Length", toDec n)] ∧ keys.contains (lit "content-length") = false ∧
+      keys.contains (lit "transfer-encoding") = false ∧ ch = false) := by
+  have hte : putheader (lit "Transfer-Encoding") (lit "chunked") = .ok [(lit "Transfer-Encoding", lit "chunked")] := by
+    decide
+  unfold framing at h
+  split at h
+  · split at h
+    · rename_i hk
+      simp only [hte, Except.map] at h
+      simp at h; subst h
+      exact Or.inr (Or.inl ⟨rfl, by simpa using hk⟩)
+    · simp at h; subst h; exact Or.inl rfl
+  · rename_i hch
+    split at h
+    · simp at h; subst h; exact Or.inl rfl
+    · rename_i hk1
+      split at h
+      · simp at h; subst h; exact Or.inl rfl
+      · rename_i hk2
+        split at h
+        · split at h
+          · simp only [hte, Except.map] at h
+            simp at h; subst h
+            exact Or.inr (Or.inl ⟨rfl, by simpa using hk2⟩)
+          · simp at h; subst h; exact Or.inl rfl
+        · rename_i n
+          obtain ⟨a, ha, e⟩ := map_ok h
+          subst e
+          exact Or.inr (Or.inr ⟨n, putheader_contentLength n ha, by simpa using hk1, by simpa using hk2,
+            by simpa using hch⟩)
+
+
+theorem prepare_hdrs {cfg : Cfg} {meth url : Str} {headers : List (Str × Str)} {body : Body} {chunked : Bool}
+    {p : Prepared} (e : prepare cfg meth url headers body chunked = .ok p) :
+    ∃ hostL aeL frL uaL,
+      p.hdrs = hostL ++ aeL ++ frL ++ uaL ++ callerHdrs headers ∧
+      (if (headerKeys headers).contains (lit "host") then hostL = [] else ∃ v, hostL = [(lit "Host", v)]) ∧
+      (if (headerKeys headers).contains (lit "accept-encoding") then aeL = []
+       else aeL = [(lit "Accept-Encoding", lit "identity")]) ∧
+      (if (headerKeys headers).contains (lit "user-agent") then uaL = []
+       else uaL = [(lit "User-Agent", Gen.defaultUserAgent)]) ∧
+      (frL = [] ∨
+       (frL = [(lit "Transfer-Encoding", lit "chunked")] ∧ (headerKeys headers).contains (lit "transfer-encoding") = false) ∨
+       (∃ n, frL = [(lit "Content-Length", toDec n)] ∧ (headerKeys headers).contains (lit "content-length") = false ∧
+          (headerKeys headers).contains (lit "transfer-encoding") = false ∧ chunked = false)) := by
+  obtain ⟨l0, cc, fr, ua, hs, _, h0, _, hfr, hua, hhs, rfl⟩ := prepare_inv e
+  obtain ⟨hostL, aeL, h2, hh, ha⟩ := putrequest_hdrs h0
+  refine ⟨hostL, aeL, fr.lines, ua, ?_, hh, ha, ?_, framing_lines hfr⟩
+  · simp only [h2, putCallerHeaders_eq hhs]
+  · split at hua
+    · rename_i hk
+      simp only [Except.ok.injEq] at hua
+      rw [if_pos hk]; exact hua.symm
+    · rename_i hk
+      have := putheader_eq hua
+      have hne : (Gen.defaultUserAgent != Gen.skipHeader) = true := by decide
+      simp only [hne, if_true] at this
+      rw [if_neg hk]; exact this
+
+/-! ## `_encode_target` output is clean -/
+
+theorem hexDigitU_clean {d : Nat} (h : d < 16) : 0x20 < hexDigitU d ∧ hexDigitU d < 0x7f ∧ hexDigitU d ≠ 35 := by
+  unfold hexDigitU; split <;> omega
+
+/-- a byte that may appear in a request target: visible ASCII other than `#` -/
+def cleanC (c : Nat) : Prop := 0x20 < c ∧ c < 0x7f ∧ c ≠ 35
+
+theorem utf8Char_lt {c : Nat} (h : c < 0x110000) : ∀ b ∈ utf8Char c, b < 256 := by
+  intro b hb
+  unfold utf8Char at hb
+  repeat' split at hb
+  all_goals simp at hb; omega
+
+theorem upperC_le (c : Nat) : upperC c ≤ c := by unfold upperC; split <;> omega
+
+theorem upperPercentsAux_lt (N : Nat) (s : Str) (hs : ∀ c ∈ s, c < N) :
+    ∀ k, ∀ c ∈ (upperPercentsAux k s).1, c < N := by
+  induction s with
+  | nil => intro k c hc; simp [upperPercentsAux] at hc
+  | cons x t ih =>
+    have hx := hs x (by simp)
+    have iht := ih (fun c hc => hs c (by simp [hc]))
+    intro k c hc
+    simp only [upperPercentsAux] at hc
+    split at hc
+    · simp at hc
+      rcases hc with rfl | hc
+      · exact Nat.lt_of_le_of_lt (upperC_le x) hx
+      · exact iht _ c hc
+    · split at hc
+      · simp at hc
+        rcases hc with rfl | hc
+        · exact hx
+        · exact iht _ c hc
+      · simp at hc
+        rcases hc with rfl | hc
+        · exact hx
+        · exact iht _ c hc
+
+theorem encodeInvalidChars_clean (comp : Str) (allowed : List Nat) (hv : ∀ c ∈ comp, c < 0x110000)
+    (ha : ∀ c ∈ allowed, cleanC c) : ∀ c ∈ encodeInvalidChars comp allowed, cleanC c := by
+  intro c hc
+  simp only [encodeInvalidChars, List.mem_flatMap] at hc
+  obtain ⟨b, hb, hc⟩ := hc
+  have hb256 : b < 256 := by
+    simp only [utf8SP, List.mem_flatMap] at hb
+    obtain ⟨x, hx, hb⟩ := hb
+    exact utf8Char_lt (upperPercentsAux_lt _ comp hv 0 x hx) b hb
+  split at hc
+  · rename_i hcond
+    simp at hc; subst hc
+    simp only [Bool.or_eq_true, Bool.and_eq_true, beq_iff_eq, decide_eq_true_eq] at hcond
+    rcases hcond with ⟨_, h37⟩ | ⟨_, hal⟩
+    · subst h37; simp [cleanC]
+    · exact ha c (by simpa using hal)
+  · simp only [pctByte, List.mem_cons, List.mem_nil_iff, or_false] at hc
+    rcases hc with rfl | rfl | rfl
+    · simp [cleanC]
+    · exact hexDigitU_clean (by omega)
+    · exact hexDigitU_clean (Nat.mod_lt _ (by decide))
+
+theorem pathChars_clean : ∀ c ∈ Gen.wirePathChars, cleanC c := by unfold cleanC; decide
+theorem queryChars_clean : ∀ c ∈ Gen.wireQueryChars, cleanC c := by unfold cleanC; decide
+
+theorem mem_takeWhile_mem {p : Nat → Bool} {l : List Nat} {c : Nat} (h : c ∈ l.takeWhile p) : c ∈ l :=
+  (List.takeWhile_sublist p).subset h
+
+theorem mem_dropWhile_mem {p : Nat → Bool} {l : List Nat} {c : Nat} (h : c ∈ l.dropWhile p) : c ∈ l :=
+  (List.dropWhile_sublist p).subset h
+
+theorem targetQuery_mem {r q : Str} (h : targetQuery r = some q) : ∀ x ∈ q, x ∈ r := by
+  unfold targetQuery at h
+  split at h
+  · simp at h; subst h
+    intro x hx
+    simp [mem_takeWhile_mem hx]
+  · simp at h
+
+theorem encodeTarget_clean (t s : Str) (hv : ∀ c ∈ t, c < 0x110000) (h : encodeTarget t = .ok s) :
+    ∀ c ∈ s, cleanC c := by
+  unfold encodeTarget at h
+  split at h
+  · split at h
+    · simp at h
+    · simp only [Except.ok.injEq] at h
+      subst h
+      intro c hc
+      simp only [List.mem_append] at hc
+      rcases hc with hc | hc
+      · exact encodeInvalidChars_clean _ _ (fun x hx => hv x (mem_takeWhile_mem hx)) pathChars_clean c hc
+      · split at hc
+        · rename_i q hq
+          simp only [List.mem_cons] at hc
+          rcases hc with rfl | hc
+          · simp [cleanC]
+          · exact encodeInvalidChars_clean q _
+              (fun x hx => hv x (mem_dropWhile_mem (targetQuery_mem hq x hx))) queryChars_clean c hc
+        · simp at hc
+  · simp at h
+
 end U3.Wire
